@@ -1,6 +1,7 @@
 package props
 
 import (
+	"embed"
 	"fmt"
 	yang "github.com/freeconf/yang"
 	"io"
@@ -15,6 +16,7 @@ import (
 	"github.com/freeconf/yang/node"
 	"github.com/freeconf/yang/nodeutil"
 	"github.com/freeconf/yang/parser"
+	"github.com/freeconf/yang/source"
 
 	"verif/core"
 	"verif/dp"
@@ -94,6 +96,9 @@ func c20opener(mods map[string]string) func(string, string) (io.Reader, error) {
 		return nil, nil
 	}
 }
+
+//go:embed c20embed/*.yang
+var c20fs embed.FS
 
 func c20load(fam int, withFeatures int) (*meta.Module, error) {
 	f := c20families[fam]
@@ -187,6 +192,8 @@ func (p c20) Run(c *core.Ctx, idx int) {
 // sequentially: every dump must be equal.
 func (p c20) loads(c *core.Ctx, clock *opClock, G int, fam int) {
 	per := 12
+	shared := source.EmbedDir(c20fs, "c20embed")
+	embedDumps := make([]string, G)
 	dumps := make([][]string, G)
 	errs := make([]error, G)
 	var start, wg sync.WaitGroup
@@ -196,6 +203,19 @@ func (p c20) loads(c *core.Ctx, clock *opClock, G int, fam int) {
 		go func(g int) {
 			defer wg.Done()
 			start.Wait()
+			// one opener over an embedded directory shared by every goroutine: main.yang imports modules stored as <name>@<revision>.yang,
+			// which the opener finds by listing the directory
+			{
+				t0 := clock.begin()
+				m, err := parser.LoadModule(shared, "main")
+				clock.end("load:embed-dir", t0)
+				if err != nil {
+					errs[g] = fmt.Errorf("load main through a shared source.EmbedDir: %w", err)
+					return
+				}
+				d, _ := walk.Dump(m)
+				embedDumps[g] = walk.JSON(d)
+			}
 			for i := 0; i < per; i++ {
 				f := (fam + g + i) % len(c20families)
 				t0 := clock.begin()
@@ -230,11 +250,22 @@ func (p c20) loads(c *core.Ctx, clock *opClock, G int, fam int) {
 			}
 		}
 	}
+	embedRef := ""
+	if m, err := parser.LoadModule(source.EmbedDir(c20fs, "c20embed"), "main"); err != nil {
+		c.Violate("loads/sequential-load-error", "main through source.EmbedDir: %v", err)
+		return
+	} else {
+		d, _ := walk.Dump(m)
+		embedRef = walk.JSON(d)
+	}
 	for g := 0; g < G; g++ {
 		c.Eval()
 		if errs[g] != nil {
 			c.Violate("loads/concurrent-load-error", "goroutine %d: %v", g, errs[g])
 			continue
+		}
+		if embedDumps[g] != embedRef {
+			c.Violate("loads/result-differs-from-sequential/embed-dir", "module main loaded through a shared source.EmbedDir opener by goroutine %d compiled to a different schema than when loaded alone\nconcurrent: %s\nsequential: %s", g, head(embedDumps[g], 800), head(embedRef, 800))
 		}
 		for _, d := range dumps[g] {
 			k := d[:strings.Index(d, ":")]
